@@ -46,7 +46,13 @@ def peer_pdus(sc):
 def run_one(sc, req, j, name, mutated, orig_rec, orig, ending='FIN'):
     def fn(rec, b):
         return mutate.reframe(orig_rec, orig, mutated)
-    p = ulcorpus.play(ops_upto_pdu(sc, j) + [(ending,)], req, mutate=(j, fn))
+    ops = ops_upto_pdu(sc, j)
+    if ending == 'DEAF':
+        # the peer is gone for writing by the time its last bytes are handled: the provider's answer cannot be written
+        ops = ops[:-1] + [('DEAF',), ops[-1], ('FIN',)]
+    else:
+        ops = ops + [(ending,)]
+    p = ulcorpus.play(ops, req, mutate=(j, fn))
     finish(p)
     return p
 
@@ -74,7 +80,8 @@ def main(tier='quick'):
                         if rep and not (mname.startswith('bitflip') or mname.startswith('random') or mname == 'cmd-garbage'):
                             continue
                         n_mut = len(runs)
-                        ending = 'RESET' if n_mut % 4 == 3 else 'FIN'      # every fourth ending is a connection reset
+                        # every fourth ending is a connection reset, every fourth a peer that no longer receives
+                        ending = 'RESET' if n_mut % 4 == 3 else ('DEAF' if n_mut % 4 == 1 else 'FIN')
                         p = run_one(sc, req, j, mname, mb, rec, b, ending)
                         runs.append(p.run)
                         recipes.append({'req': req, 'conv': name, 'pdu': j, 'mutator': mname, 'bytes': mb.hex(), 'ending': ending})
